@@ -127,7 +127,9 @@ CLAIMS = {
              "number of threads from the empty pool, a thread releasing only a cell it holds) the invariant holds, no cell is held "
              "by two threads at once and the next cell handed out has no holder. Tie: a harness linked against a ThreadSanitizer build solves 2-8 "
              "random LRA/LIA instances with coefficients of 2^70 at the same time (one solver, logic and config per thread) and "
-             "compares every answer with the answer of the same instance alone; any ThreadSanitizer report or differing answer "
+             "compares every answer with the answer of the same instance alone; seeded sequences of FastRational operations (lcm, "
+             "gcd, division, rounding on 20-45 digit numbers) run in 2, 4 and 8 threads at once and their digests are compared "
+             "with the same sequences alone; any ThreadSanitizer report or differing answer "
              "is a violation.",
         design_ref="5 C24"),
     "C25": dict(
@@ -138,7 +140,9 @@ CLAIMS = {
              "answer; a request gives unknown when no earlier round decides; a later request disturbs no more than an earlier "
              "one. Tie: the harness "
              "calls notifyStop / notifyGlobalStop from another thread after a random delay between zero and 1.5 times the "
-             "solving time of the instance (measured on an undisturbed run) and requires unknown or the undisturbed answer, "
+             "solving time of the instance (measured on an undisturbed run; small big-coefficient arithmetic instances and, every "
+             "other round, planted 3-SAT instances near the threshold with many conflicts), requires unknown or the undisturbed "
+             "answer, asks the same solver again afterwards (after a reset global request: the undisturbed answer), "
              "with no ThreadSanitizer report.",
         design_ref="5 C25"),
     "C28": dict(
